@@ -26,14 +26,16 @@ CONFIG = {
              "non-trivial = the required query returned nodes; distinct = distinct (document, path list)."),
     "trusted_base": [
         "modelled, not verified: yamlpath/processor.py 59-167, 811-2627; common/searches.py; Nodes.typed_value",
-        "the reference semantics used by the judge (harness/c01.py ref_*; the Gallina text is coq/Spec/SpecC01.v) is "
-        "hand-written from README 'Supported YAML Path Segments' and DESIGN Appendix C",
+        "the reference semantics used by the judge (harness/c01.py ref_*) is hand-written from README 'Supported YAML "
+        "Path Segments' and DESIGN Appendix C; it is compared on every case with the extracted coq/Spec/SpecC01.v "
+        "sem_doc (request '(sem ...)', ocaml/drv_sem.ml), the specification the C01 theorems are stated against",
         "value comparison of search operators is delegated to the real Searches.search_matches (C12 is the property "
         "about it)",
     ],
     "assumptions": [
         "the model is the code only as far as the correspondence run shows",
-        "C01 theorems: see docs/C01.md for the fragment actually proved",
+        "C01_required_sem_partial covers the whole fragment generated here; its guard (no SOut in the strict reading "
+        "of the specification) excludes exactly the 'unspecified' answers of the reference and the findings F12a / F29",
     ],
 }
 
